@@ -45,10 +45,17 @@ pub fn issue_creds(ctx: &mut Ctx, n: usize, tag: u64) -> Vec<Cred> {
     let mut pending = vec![];
     let mut reqs = vec![];
     let specials = special_flows(&mut ctx.rng.fork(tag + 9_999_991), ctx.tier);
-    for i in 0..n {
+    // after the n generated credentials: EVERY fixed claim set under its Custom strategy (and every third under AllLevels), to be
+    // given a handful of lists each
+    let lite: Vec<Flow> = specials.iter().filter(|f| !f.sel.is_empty() && depth_of(&f.issue.claims) < 12).enumerate()
+        .filter(|(k, f)| matches!(f.issue.strategy, Strategy::Custom(_)) || (matches!(f.issue.strategy, Strategy::All) && k % 3 == 0)).map(|(_, f)| f.clone()).collect();
+    for i in 0..n + lite.len() {
         let mut r = ctx.rng.fork(tag + i as u64);
-        let mut f = gen_flow(&mut r, &cfg);
-        if i % 6 == 5 && !specials.is_empty() {
+        let mut f = if i >= n { lite[i - n].clone() } else { gen_flow(&mut r, &cfg) };
+        if i >= n {
+            ctx.count("credential.fixed_claim_set(few lists)");
+        }
+        if i < n && i % 6 == 5 && !specials.is_empty() {
             // names that look like syntax, a user-supplied cnf, deep chains (rotating with the seed)
             f = specials[(i / 6 + ctx.seed as usize) % specials.len()].clone();
             if i == 5 {
@@ -100,6 +107,9 @@ pub fn issue_creds(ctx: &mut Ctx, n: usize, tag: u64) -> Vec<Cred> {
             continue;
         }
         out.push(Cred { args: a, parts, second, hidden, at: loc.at });
+        if out.len() > n {
+            // (position beyond the generated ones: a fixed claim set)
+        }
     }
     out
 }
@@ -495,8 +505,9 @@ pub fn list_attack(c: &Cred, label: &str, l: Vec<String>, fmt: Fmt) -> Attack {
 pub fn lists_for(r: &mut Rng, c: &Cred, per_cred: usize) -> Vec<Attack> {
     let mut out = vec![];
     let start = r.below(CLASSES.len());
+    let few = ["all", "subset", "mixed", "altered-beside", "forged"];
     for k in 0..per_cred {
-        let class = CLASSES[(start + k) % CLASSES.len()];
+        let class = if per_cred == few.len() { few[k] } else { CLASSES[(start + k) % CLASSES.len()] };
         let (label, l) = gen_list(r, c, class);
         if l.iter().any(|d| d.contains('~')) {
             continue;
@@ -543,7 +554,7 @@ pub fn build_lists(ctx: &mut Ctx, n: usize, per_cred: usize, tag: u64) -> Vec<At
         if c.at.keys().any(|p| !hidden_ancestors(p, &c.hidden).is_empty()) {
             ctx.count("credential.with_nested_hidden_claims");
         }
-        out.extend(lists_for(&mut r, c, per_cred));
+        out.extend(lists_for(&mut r, c, if k < n { per_cred } else { 5 }));
     }
     out
 }
